@@ -1039,7 +1039,18 @@ func callBuiltin(caller *frame, callpos token.Pos, fn *ssa.Builtin, args []value
 		case *omap:
 			m.clear()
 		case []value:
-			panic(unsupported("clear of slice"))
+			var et types.Type
+			if sig, ok := fn.Type().(*types.Signature); ok && sig.Params().Len() > 0 {
+				if st, ok := sig.Params().At(0).Type().Underlying().(*types.Slice); ok {
+					et = st.Elem()
+				}
+			}
+			if et == nil {
+				panic(unsupported("clear of slice of unknown element type"))
+			}
+			for i := range m {
+				m[i] = zero(et)
+			}
 		}
 		return nil
 
